@@ -252,6 +252,16 @@ def var_encodings(name, rng, thorough):
         out.append(struct.pack('<QBBBB4x', 5, 5, 0, 2, 0) + b'abc\0\0' + b'\0\0')
         s = 'vé1.2€'.encode('utf8')
         out.append(struct.pack('<QBBBB4x', 5, len(s), 0, 0, 3) + s + b'xyz')
+        # multi-byte UTF-8 in each of the four strings separately (fw, engine, os, rx), and in all of them
+        for pos in range(4):
+            for txt in ('rx-µ4', '€', 'ß' * 7):
+                ls = [2, 0, 3, 1]
+                parts = [b'ab'[:ls[0]], b'', b'xyz', b'q']
+                parts[pos] = txt.encode('utf8')
+                ls[pos] = len(parts[pos])
+                out.append(struct.pack('<QBBBB4x', 9, *ls) + b''.join(parts))
+        parts = [t.encode('utf8') for t in ('fö', 'éng', 'ø', 'rµ')]
+        out.append(struct.pack('<QBBBB4x', 9, *[len(x) for x in parts]) + b''.join(parts))
     elif name == 'DeviceIDMessage':
         for n in lens(rng, 255, thorough):
             ls = [n, rng.choice(LENS), rng.choice(LENS)]
